@@ -4,6 +4,7 @@ import (
 	"fmt"
 	"go/token"
 	"go/types"
+	"sort"
 	"strings"
 
 	"golang.org/x/tools/go/ssa"
@@ -376,9 +377,47 @@ func verdictFailureSucc(fn *ssa.Function, cl *ssa.Call, isBool bool) *ssa.BasicB
 
 // ---- R1.4 ----
 
+type sibKey struct {
+	fn  *ssa.Function
+	arg int
+}
+
+type sibUse struct {
+	field, site string
+	pos         token.Pos
+}
+
+// argFieldName: the argument is a load of a struct field (x.F or *(&x.F)),
+// possibly through a conversion; returns F's name.
+func argFieldName(v ssa.Value) string {
+	for i := 0; i < 4; i++ {
+		switch x := v.(type) {
+		case *ssa.Convert:
+			v = x.X
+			continue
+		case *ssa.ChangeType:
+			v = x.X
+			continue
+		case *ssa.UnOp:
+			if x.Op == token.MUL {
+				if fa, ok := x.X.(*ssa.FieldAddr); ok && fieldOf(fa) != nil {
+					return fieldOf(fa).Name()
+				}
+			}
+		case *ssa.Field:
+			if f := fieldOfVal(x); f != nil {
+				return f.Name()
+			}
+		}
+		break
+	}
+	return ""
+}
+
 func c01CallerBinding(c *Check, vs []*verifier) {
 	p := c.P
 	n := 0
+	sib := map[sibKey][]sibUse{}
 	for _, f := range p.SrcFuncs {
 		root := rootFunc(f)
 		if root.Pkg == nil || p.IsTestPos(root.Pos()) {
@@ -406,7 +445,40 @@ func c01CallerBinding(c *Check, vs []*verifier) {
 				c.callSites++
 				c.SawFunc(f)
 				c01CheckCallSite(c, f, cl, v)
+				for _, qi := range v.req {
+					if fname := argFieldName(cl.Call.Args[qi]); fname != "" {
+						k := sibKey{v.fn, qi}
+						sib[k] = append(sib[k], sibUse{fname, fnName(f), cl.Pos()})
+					}
+				}
 			}
+		}
+	}
+	// sibling agreement: all call sites of one verifier read a given position
+	// argument from the same-named field of their request object
+	var keys []sibKey
+	for k := range sib {
+		keys = append(keys, k)
+	}
+	sort.Slice(keys, func(i, j int) bool {
+		if keys[i].fn != keys[j].fn {
+			return keys[i].fn.String() < keys[j].fn.String()
+		}
+		return keys[i].arg < keys[j].arg
+	})
+	for _, k := range keys {
+		uses := sib[k]
+		names := map[string]int{}
+		for _, u := range uses {
+			names[u.field]++
+		}
+		if len(uses) < 2 {
+			continue
+		}
+		for _, u := range uses {
+			agree := len(names) == 1
+			c.Ob("R1.4", fmt.Sprintf("%s->%s:arg%d:sibling", u.site, k.fn.Name(), k.arg), agree, p.Pos(u.pos),
+				fmt.Sprintf("argument %d (%s) is read from request field %q; sibling call sites use %v", k.arg, k.fn.Params[k.arg].Name(), u.field, names))
 		}
 	}
 	c.Floor("R1.4", "verifier call sites outside shwap", n, 8)
